@@ -461,7 +461,7 @@ func (n *nodeSim) settle() {
 		}
 		n.noteOverlaps(parked)
 		n.steps++
-		if n.steps > 20000 {
+		if n.steps > n.stepBound() {
 			if !n.aborted {
 				n.aborted = true
 				n.res.HarnessErr = "step bound exceeded"
@@ -545,6 +545,15 @@ func (n *nodeSim) settle() {
 			n.sched.Release(t, "go")
 		}
 	}
+}
+
+// stepBound: a run that needs more scheduler steps than this is cut off as a harness error. PRoPHET histories
+// with a one-second ageing interval and hours of simulated time legitimately need many (one per cron job and tick).
+func (n *nodeSim) stepBound() int {
+	if n.algo == "prophet" {
+		return 400000
+	}
+	return 20000
 }
 
 // noteOverlaps records that two tasks are parked before a write of the same bundle's state.
